@@ -295,6 +295,12 @@ def build(tier, seed):
                        common.handler_names(wobj))
     chk.script('update_consumers', script_update_consumers,
                ['placement/handlers/util.py:update_consumers'])
+    chk.script('inventory.find', script_find,
+               ['placement/objects/inventory.py:find'])
+    chk.script('_add_inventory_to_provider', script_add_inventory,
+               ['placement/objects/resource_provider.py:_add_inventory_to_provider'])
+    chk.script('_update_inventory_for_provider', script_update_inventory,
+               ['placement/objects/resource_provider.py:_update_inventory_for_provider'])
     chk.script('set_allocations', C01.script_set,
                ['placement/objects/allocation.py:_set_allocations'])
     chk.keep_prefixes = ('C11.', 'C01.set.post.exact', 'C01.set.post.never',
@@ -306,6 +312,312 @@ def build(tier, seed):
                  always=True)
     chk.assume('A-int', 'A-real', 'A-heap', 'A-lib', 'A-sum', 'A-sql')
     return chk
+
+
+
+# --------------------------------------------------------------------------
+# object layer: the rows written carry the fields of the Inventory objects
+from placement.objects import inventory as inv_obj_mod
+from placement.objects import resource_provider as rp_obj_mod
+from pyvc.values import sort_of
+from pyvc.ghostdb import PAIR
+
+INV = classes.INV
+FQ = 'find'
+
+
+def find_inv(I, frame, i, seq):
+    """no record before index i has the class looked for"""
+    lst = frame.locals['inventories']
+    want = to_term(frame.locals['res_class'], 'str')
+    j = z3.Int('j!find')
+    return [ops.forall([j], z3.Implies(
+        z3.And(j >= 0, j < i),
+        z3.Or(z3.Select(I.fld_none(INV, 'resource_class'),
+                        z3.Select(lst.arr, j)),
+              z3.Select(I.fld(INV, 'resource_class'),
+                        z3.Select(lst.arr, j)) != want)),
+        patterns=[z3.Select(lst.arr, j)])]
+
+
+def script_find(ex):
+    reg = lib.base_registry()
+    reg['fields'].update(classes.FIELDS)
+    reg['loops'][(FQ, 1)] = LoopSpec(invariant=find_inv, name='C11.find',
+                                     keep=('inventories', 'res_class'))
+    I = Interp(ex, reg)
+    lst = I.fresh_list('inventories', ('obj', INV))
+    want = I.fresh('res_class', 'str')
+    res = I.call(inv_obj_mod.find, [lst, want], {})
+    j = z3.Int('j!findpost')
+    cls_j = z3.Select(I.fld(INV, 'resource_class'), z3.Select(lst.arr, j))
+    nn_j = z3.Not(z3.Select(I.fld_none(INV, 'resource_class'),
+                            z3.Select(lst.arr, j)))
+    inr = z3.And(j >= 0, j < lst.len)
+    if res is None:
+        ex.oblige('C11.C.find.none_only_if_absent', ops.forall(
+            [j], z3.Implies(inr, z3.Not(z3.And(nn_j, cls_j == want.t))),
+            patterns=[z3.Select(lst.arr, j)]), 'C')
+        return
+    if not isinstance(res, Obj):
+        raise Undecided('find returned %r' % (res,))
+    ex.oblige('C11.C.find.returns_a_record_of_that_class', z3.And(
+        z3.Exists([j], z3.And(inr, z3.Select(lst.arr, j) == res.ref)),
+        z3.Not(z3.Select(I.fld_none(INV, 'resource_class'), res.ref)),
+        z3.Select(I.fld(INV, 'resource_class'), res.ref) == want.t), 'C')
+
+
+def find_contract(I, a, k):
+    """inventory.find (body proof: script_find): the record of that class in
+    the list, or None"""
+    lst, want = a[0], a[1]
+    if not isinstance(lst, SList):
+        raise Undecided('find over %r' % (lst,))
+    wt = to_term(want, 'str')
+    j = z3.Int('j!findc')
+    e = z3.Select(lst.arr, j)
+    hit = z3.And(j >= 0, j < lst.len,
+                 z3.Not(z3.Select(I.fld_none(INV, 'resource_class'), e)),
+                 z3.Select(I.fld(INV, 'resource_class'), e) == wt)
+    if I.ex.branch(z3.Bool(I.ex.fresh_name('found'))):
+        w = z3.Int(I.ex.fresh_name('find.at'))
+        I.ex.assume(z3.substitute(hit, (j, w)))
+        return Obj(INV, z3.Select(lst.arr, w))
+    I.ex.hyp(ops.forall([j], z3.Not(hit), patterns=[z3.Select(lst.arr, j)]))
+    return None
+
+
+AQ = '_add_inventory_to_provider'
+INV_COLS = ('total', 'reserved', 'min_unit', 'max_unit', 'step_size',
+            'allocation_ratio')
+
+
+def _row_is(I, t, key, inv_ref):
+    fs = [z3.Select(t.exists, key)]
+    for c in INV_COLS:
+        fs.append(z3.Select(t.data[c], key) == z3.Select(I.fld(INV, c), inv_ref))
+    return z3.And(*fs)
+
+
+def add_entry(I, frame, seq):
+    I.ghost['c11.inv0'] = I.db.tables['inventories']
+
+
+def add_inv(I, frame, i, seq):
+    """the classes enumerated so far have a row carrying the fields of THE
+    record of that class; every other row is as before"""
+    t0 = I.ghost['c11.inv0']
+    t = I.db.tables['inventories']
+    rp = frame.locals['rp']
+    rid = to_term(I.read_field(rp, 'id'), 'int')
+    to_add = seq.origin
+    el = I.ghost['c11.el']
+    lst = frame.locals['inv_list']
+    ps = sort_of(PAIR)
+    k = z3.Const('k!add', ps)
+    krp, krc = ps.accessor(0, 0)(k), ps.accessor(0, 1)(k)
+    done = z3.And(krp == rid, z3.Select(to_add.arr, krc), seq.idx(krc) < i)
+    same = z3.And(z3.Select(t.exists, k) == z3.Select(t0.exists, k),
+                  *[z3.Select(t.data[c], k) == z3.Select(t0.data[c], k)
+                    for c in INV_COLS])
+    return [ops.forall([k], z3.If(
+        done, _row_is(I, t, k, z3.Select(lst.arr, el(krc))), same),
+        patterns=[z3.Select(t.exists, k)])]
+
+
+def script_add_inventory(ex):
+    reg = lib.base_registry()
+    reg['fields'].update(classes.FIELDS)
+    reg['getattr'] = lib.context_getattr_hook
+    reg['calls'][id(inv_obj_mod.find)] = find_contract
+    reg['loops'][(AQ, 1)] = LoopSpec(
+        invariant=add_inv, on_entry=add_entry, name='C11.add_inventory',
+        keep=('ctx', 'rp', 'inv_list', 'to_add'), modifies_db=('inventories',))
+    I = Interp(ex, reg)
+    I.db = GhostDB(I, 'db')
+    for h in I.db.row_invariants():
+        ex.hyp(h)
+    ctx = lib.CtxStub()
+    I.ghost['ctx'] = ctx
+    rp = I.fresh('rp', ('obj', classes.RP))
+    ex.assume(z3.Not(z3.Select(I.fld_none(classes.RP, 'id'), rp.ref)))
+    lst = I.fresh_list('inv_list', ('obj', INV))
+    to_add = I.fresh_set('to_add', 'int')
+    cache = ctx.rc_cache
+    el = z3.Function(ex.fresh_name('record_of'), z3.IntSort(), z3.IntSort())
+    I.ghost['c11.el'] = el
+    x = z3.Int('x!addpre')
+    j, j2 = z3.Ints('j!addpre j2!addpre')
+    e = z3.Select(lst.arr, el(x))
+    nn = lambda f, o: z3.Not(z3.Select(I.fld_none(INV, f), o))
+    # to_add holds known class ids, each with its record in the list (the
+    # callers derive to_add from the list); one record per class
+    ex.hyp(ops.forall([x], z3.Implies(z3.Select(to_add.arr, x), z3.And(
+        cache.known_id(x), el(x) >= 0, el(x) < lst.len,
+        nn('resource_class', e),
+        z3.Select(I.fld(INV, 'resource_class'), e) == cache.f_str(x),
+        nn('total', e))), patterns=[z3.Select(to_add.arr, x)]))
+    cj = z3.Select(I.fld(INV, 'resource_class'), z3.Select(lst.arr, j))
+    cj2 = z3.Select(I.fld(INV, 'resource_class'), z3.Select(lst.arr, j2))
+    ex.hyp(ops.forall([j, j2], z3.Implies(
+        z3.And(j >= 0, j < j2, j2 < lst.len), cj != cj2),
+        patterns=[z3.MultiPattern(z3.Select(lst.arr, j),
+                                  z3.Select(lst.arr, j2))]))
+    t0 = I.db.tables['inventories']
+    rid = to_term(I.read_field(rp, 'id'), 'int')
+    lib.txn_enter(I, 'writer')
+    from oslo_db import exception as db_exc
+    try:
+        I.call(rp_obj_mod._add_inventory_to_provider, [ctx, rp, lst, to_add], {})
+    except PyRaise as pr:
+        ex.oblige('C11.C.add_inventory.raises.class',
+                  issubclass(pr.exc.cls, db_exc.DBDuplicateEntry), 'C',
+                  {'raised': pr.exc.cls.__name__, 'args': repr(pr.exc.args)})
+        return
+    t = I.db.tables['inventories']
+    ps = sort_of(PAIR)
+    k = z3.Const('k!addpost', ps)
+    krp, krc = ps.accessor(0, 0)(k), ps.accessor(0, 1)(k)
+    mine = z3.And(krp == rid, z3.Select(to_add.arr, krc))
+    ex.oblige('C11.T.add_inventory.rows_carry_the_records', ops.forall(
+        [k], z3.Implies(mine, _row_is(I, t, k, z3.Select(lst.arr, el(krc)))),
+        patterns=[z3.Select(t.exists, k)]), 'T')
+    ex.oblige('C11.T.add_inventory.nothing_else_changes', ops.forall(
+        [k], z3.Implies(z3.Not(mine), z3.And(
+            z3.Select(t.exists, k) == z3.Select(t0.exists, k),
+            *[z3.Select(t.data[c], k) == z3.Select(t0.data[c], k)
+              for c in INV_COLS])), patterns=[z3.Select(t.exists, k)]), 'T')
+
+
+UQ2 = '_update_inventory_for_provider'
+
+
+class _UsageRow(object):
+    """row of the SUM(used) query of _update_inventory_for_provider"""
+
+
+def usage_select(I, stmt, binds):
+    """SELECT sum(allocations.used) AS usage WHERE provider = ?0 AND class =
+    ?1: one row; NULL when there is no allocation row (A-sum)"""
+    from pyvc import sqltext
+    from pyvc.values import Native, BoundMethod
+    text, values = sqltext.normal_form(stmt, binds)
+    want = ("SELECT sum(allocations.used) AS usage FROM allocations WHERE "
+            "allocations.resource_provider_id = ?0 AND "
+            "allocations.resource_class_id = ?1")
+    I.ex.oblige('C11.sql.update_inventory_usage', text == want, 'A',
+                {'built': text})
+    if text != want or len(values) != 2:
+        raise Undecided('usage SELECT differs from its spec')
+    key = sort_of(PAIR).mk(to_term(values[0], 'int'), to_term(values[1], 'int'))
+    row = I.alloc(_UsageRow)
+    null = z3.Bool(I.ex.fresh_name('usage_null'))
+    I.ex.assume(z3.Implies(null, z3.Select(I.db.usage, key) == 0))
+    I.write_field(row, 'usage', Sym(z3.Select(I.db.usage, key), 'int', null))
+
+    class _Res(Native):
+        def getattr(self_, I_, name):
+            if name == 'first':
+                class _F(Native):
+                    def call(s, I__, a, k):
+                        return row
+                return BoundMethod(self_, _F())
+            raise Undecided('result.%s' % name)
+    return _Res()
+
+
+def upd_entry(I, frame, seq):
+    I.ghost['c11.inv0u'] = I.db.tables['inventories']
+
+
+def upd_inv2(I, frame, i, seq):
+    t0 = I.ghost['c11.inv0u']
+    t = I.db.tables['inventories']
+    rp = frame.locals['rp']
+    rid = to_term(I.read_field(rp, 'id'), 'int')
+    to_update = seq.origin
+    el = I.ghost['c11.el']
+    lst = frame.locals['inv_list']
+    ps = sort_of(PAIR)
+    k = z3.Const('k!upd2', ps)
+    krp, krc = ps.accessor(0, 0)(k), ps.accessor(0, 1)(k)
+    done = z3.And(krp == rid, z3.Select(to_update.arr, krc),
+                  seq.idx(krc) < i)
+    same = z3.And(z3.Select(t.exists, k) == z3.Select(t0.exists, k),
+                  *[z3.Select(t.data[c], k) == z3.Select(t0.data[c], k)
+                    for c in INV_COLS])
+    return [ops.forall([k], z3.If(
+        done, _row_is(I, t, k, z3.Select(lst.arr, el(krc))), same),
+        patterns=[z3.Select(t.exists, k)])]
+
+
+def script_update_inventory(ex):
+    from placement import exception as E
+    reg = lib.base_registry()
+    reg['fields'].update(classes.FIELDS)
+    reg['fields'][('_UsageRow', 'usage')] = __import__('pyvc.interp', fromlist=['FieldSpec']).FieldSpec('int', True)
+    reg['getattr'] = lib.context_getattr_hook
+    reg['calls'][id(inv_obj_mod.find)] = find_contract
+    reg['selects'][UQ2] = usage_select
+    reg['loops'][(UQ2, 1)] = LoopSpec(
+        invariant=upd_inv2, on_entry=upd_entry, name='C11.update_inventory',
+        keep=('ctx', 'rp', 'inv_list', 'to_update'),
+        modifies_db=('inventories',))
+    reg['havoc_types'] = {(UQ2, 'exceeded'): ('list', ('tuple', ('str', 'str')))}
+    I = Interp(ex, reg)
+    I.db = GhostDB(I, 'db')
+    for h in I.db.row_invariants():
+        ex.hyp(h)
+    ctx = lib.CtxStub()
+    I.ghost['ctx'] = ctx
+    rp = I.fresh('rp', ('obj', classes.RP))
+    ex.assume(z3.And(
+        z3.Not(z3.Select(I.fld_none(classes.RP, 'id'), rp.ref)),
+        z3.Not(z3.Select(I.fld_none(classes.RP, 'uuid'), rp.ref))))
+    lst = I.fresh_list('inv_list', ('obj', INV))
+    to_update = I.fresh_set('to_update', 'int')
+    cache = ctx.rc_cache
+    el = z3.Function(ex.fresh_name('record_of'), z3.IntSort(), z3.IntSort())
+    I.ghost['c11.el'] = el
+    x = z3.Int('x!updpre')
+    j, j2 = z3.Ints('j!updpre j2!updpre')
+    e = z3.Select(lst.arr, el(x))
+    nn = lambda f, o: z3.Not(z3.Select(I.fld_none(INV, f), o))
+    ex.hyp(ops.forall([x], z3.Implies(z3.Select(to_update.arr, x), z3.And(
+        cache.known_id(x), el(x) >= 0, el(x) < lst.len,
+        nn('resource_class', e), nn('total', e),
+        z3.Select(I.fld(INV, 'resource_class'), e) == cache.f_str(x))),
+        patterns=[z3.Select(to_update.arr, x)]))
+    cj = z3.Select(I.fld(INV, 'resource_class'), z3.Select(lst.arr, j))
+    cj2 = z3.Select(I.fld(INV, 'resource_class'), z3.Select(lst.arr, j2))
+    ex.hyp(ops.forall([j, j2], z3.Implies(
+        z3.And(j >= 0, j < j2, j2 < lst.len), cj != cj2),
+        patterns=[z3.MultiPattern(z3.Select(lst.arr, j),
+                                  z3.Select(lst.arr, j2))]))
+    t0 = I.db.tables['inventories']
+    rid = to_term(I.read_field(rp, 'id'), 'int')
+    lib.txn_enter(I, 'writer')
+    try:
+        I.call(rp_obj_mod._update_inventory_for_provider,
+               [ctx, rp, lst, to_update], {})
+    except PyRaise as pr:
+        ex.oblige('C11.C.update_inventory.raises.class', issubclass(
+            pr.exc.cls, E.InventoryWithResourceClassNotFound), 'C',
+            {'raised': pr.exc.cls.__name__, 'args': repr(pr.exc.args)})
+        return
+    t = I.db.tables['inventories']
+    ps = sort_of(PAIR)
+    k = z3.Const('k!updpost', ps)
+    krp, krc = ps.accessor(0, 0)(k), ps.accessor(0, 1)(k)
+    mine = z3.And(krp == rid, z3.Select(to_update.arr, krc))
+    ex.oblige('C11.T.update_inventory.rows_carry_the_records', ops.forall(
+        [k], z3.Implies(mine, _row_is(I, t, k, z3.Select(lst.arr, el(krc)))),
+        patterns=[z3.Select(t.exists, k)]), 'T')
+    ex.oblige('C11.T.update_inventory.nothing_else_changes', ops.forall(
+        [k], z3.Implies(z3.Not(mine), z3.And(
+            z3.Select(t.exists, k) == z3.Select(t0.exists, k),
+            *[z3.Select(t.data[c], k) == z3.Select(t0.data[c], k)
+              for c in INV_COLS])), patterns=[z3.Select(t.exists, k)]), 'T')
 
 
 if __name__ == '__main__':
